@@ -42,25 +42,29 @@ def fmtQuad (h1 h2 h3 h4 : Int) : Bytes :=
 def assignIp (ipParse : Bytes → Option Nat) (addr0 : Nat) (text : Bytes) : Nat :=
   (ipParse text).getD addr0
 
+/-- how Ftp::ParseIpPort obtains the address: `none` = `return false` -/
+def pasvAddr (ipParse : Bytes → Option Nat) (forceIp : Option Bytes) (addr0 : Nat) (h1 h2 h3 h4 : Int) : Option Nat :=
+  match forceIp with
+  | some f => some (assignIp ipParse addr0 f)             -- addr = forceIp;
+  | none =>
+    let a := assignIp ipParse addr0 (fmtQuad h1 h2 h3 h4) -- addr = ipBuf;
+    if isAny a then none else some a                      -- if (addr.isAnyAddr()) return false;
+
+/-- the port part of Ftp::ParseIpPort -/
+def pasvPort (sanity : Bool) (a : Nat) (p1 p2 : Int) : AddrResult :=
+  if p1 * 256 + p2 ≤ 0 then .reject                      -- port = ((p1 << 8) + p2); if (port <= 0) return false;
+  else if sanity = true ∧ p1 * 256 + p2 < pasvSanityMinPort then .reject
+  else .ok a ((p1 * 256 + p2).toNat % 65536)              -- addr.port(unsigned short)
+
 /-- Ftp::ParseIpPort(buf, forceIp, addr) with `Config.Ftp.sanitycheck = sanity`; `addr0` = value of `addr` on entry. -/
 def parseIpPort (ipParse : Bytes → Option Nat) (sanity : Bool) (forceIp : Option Bytes) (addr0 : Nat) (buf : Bytes) : AddrResult :=
   match scan6 buf with
   | some [h1, h2, h3, h4, p1, p2] =>
     -- if (n != 6 || p1 < 0 || p2 < 0 || p1 > 255 || p2 > 255) return false;
-    if p1 < 0 || p2 < 0 || p1 > pasvOctetMax || p2 > pasvOctetMax then .reject else
-    let addr : Option Nat :=
-      match forceIp with
-      | some f => some (assignIp ipParse addr0 f)           -- addr = forceIp;
-      | none =>
-        let a := assignIp ipParse addr0 (fmtQuad h1 h2 h3 h4) -- addr = ipBuf;
-        if isAny a then none else some a                      -- if (addr.isAnyAddr()) return false;
-    match addr with
+    if p1 < 0 ∨ p2 < 0 ∨ p1 > pasvOctetMax ∨ p2 > pasvOctetMax then .reject else
+    match pasvAddr ipParse forceIp addr0 h1 h2 h3 h4 with
     | none => .reject
-    | some a =>
-      let port := p1 * 256 + p2                               -- ((p1 << 8) + p2)
-      if port ≤ 0 then .reject
-      else if sanity && port < pasvSanityMinPort then .reject
-      else .ok a (port.toNat % 65536)                         -- addr.port(unsigned short)
+    | some a => pasvPort sanity a p1 p2
   | _ => .reject
 
 /-- `strchr(s, delim)`: (bytes before the first `delim`, bytes after it) -/
@@ -70,25 +74,31 @@ def splitAtByte (delim : UInt8) : Bytes → Option (Bytes × Bytes)
     if c == delim then some ([], r)
     else (splitAtByte delim r).map fun (a, b) => (c :: a, b)
 
+/-- Ftp::ParseProtoIpPort after `addr = ip;` -/
+def eprtPort (sanity : Bool) (proto : Int) (addr : Nat) (rest : Bytes) : AddrResult :=
+  if isAny addr = true then .reject else                   -- if (addr.isAnyAddr()) return false;
+  if (proto = 2) ≠ (isV4 addr = false) then .reject else   -- if ((proto == 2) != addr.isIPv6()) return false;
+  -- const int port = strtol(s, &e, 10); if (port < 0 || *e != '|') return false;
+  if (strtolInt rest).1 < 0 ∨ (strtolInt rest).2.head? ≠ some 124 then .reject else
+  if sanity = true ∧ (strtolInt rest).1 < eprtSanityMinPort then .reject else
+  .ok addr ((strtolInt rest).1.toNat % 65536)              -- addr.port(unsigned short)
+
+/-- Ftp::ParseProtoIpPort after the protocol number: `e` points at the delimiter that follows it -/
+def eprtAddr (ipParse : Bytes → Option Nat) (sanity : Bool) (addr0 : Nat) (delim : UInt8) (proto : Int) (e : Bytes) : AddrResult :=
+  match splitAtByte delim e.tail with                      -- s = e + 1; e = strchr(s, delim);
+  | none => .reject
+  | some (ipTxt, rest) =>
+    if ipTxt.length ≥ maxIpStrLen then .reject else        -- if (e - s >= sizeof(ip)) return false;
+    eprtPort sanity proto (assignIp ipParse addr0 ipTxt) rest
+
 /-- Ftp::ParseProtoIpPort(buf, addr); `buf` is a non-empty C string (the caller answers 501 to empty parameters). -/
 def parseProtoIpPort (ipParse : Bytes → Option Nat) (sanity : Bool) (addr0 : Nat) (buf : Bytes) : AddrResult :=
   match buf with
   | [] => .reject
   | delim :: s =>
-    let (proto, e) := strtolInt s                              -- const int proto = strtol(s, &e, 10);
-    -- if ((proto != 1 && proto != 2) || *e != delim) return false;
-    if (proto != 1 && proto != 2) || e.head? != some delim then .reject else
-    match splitAtByte delim e.tail with                        -- s = e + 1; e = strchr(s, delim);
-    | none => .reject
-    | some (ipTxt, rest) =>
-      if ipTxt.length ≥ maxIpStrLen then .reject else          -- if (e - s >= sizeof(ip)) return false;
-      let addr := assignIp ipParse addr0 ipTxt                 -- addr = ip;
-      if isAny addr then .reject else
-      if (proto == 2) != !(isV4 addr) then .reject else        -- if ((proto == 2) != addr.isIPv6()) return false;
-      let (port, e2) := strtolInt rest                         -- const int port = strtol(s, &e, 10);
-      if port < 0 || e2.head? != some 124 then .reject else    -- if (port < 0 || *e != '|') return false;
-      if sanity && port < eprtSanityMinPort then .reject else
-      .ok addr (port.toNat % 65536)                            -- addr.port(unsigned short)
+    -- const int proto = strtol(s, &e, 10); if ((proto != 1 && proto != 2) || *e != delim) return false;
+    if ((strtolInt s).1 ≠ 1 ∧ (strtolInt s).1 ≠ 2) ∨ (strtolInt s).2.head? ≠ some delim then .reject else
+    eprtAddr ipParse sanity addr0 delim (strtolInt s).1 (strtolInt s).2
 
 /-! ### A concrete text-to-address conversion for canonical dotted quads (used by the driver as the fall-back
 and by the `decide`d examples): exactly four decimal fields of 1–3 digits, each ≤ 255. -/
